@@ -127,7 +127,12 @@ class _World:
 W = [None]     # the current _World
 
 
-class _FakeDateTime(_datetime.datetime):
+class _DTMeta(type(_datetime.datetime)):
+    def __instancecheck__(cls, obj):       # plain datetime objects are what `now()` hands out
+        return isinstance(obj, _datetime.datetime)
+
+
+class _FakeDateTime(_datetime.datetime, metaclass=_DTMeta):
     @classmethod
     def now(cls, tz=None):
         t = BASE + _datetime.timedelta(minutes=W[0].clock)
@@ -960,7 +965,7 @@ def _run_history(case):
                     if c[0] == 'g':
                         raise common.HarnessError('tear produced a loadable file: %r' % new)
                     cls = c[1]
-                    if how in ('cut', 'zero') and cls not in ('eof', 'unp'):
+                    if how in ('cut', 'zero') and cls not in ('eof', 'unp') and _classify_blob(blob)[0] == 'g':
                         raise common.HarnessError(
                             'pickle contract broken: truncation at %d of %r raises class %s'
                             % (len(new), blob, cls))
